@@ -92,6 +92,21 @@ CFG = {
             "to whole rows and ENCODED by the spec-side predictor encoder for the nearest sane parameters (so the sane values complete with the text "
             "extracted through a really reversed predictor on all four hosts), in five shapes: empty, one byte, one byte short of a row, whole rows, whole "
             "rows plus one byte; every unusable value meets non-empty data on every host (hosts x chains fully crossed in thorough); "
+            "LYING STRUCTURAL METADATA (corpus/C01/lying_metadata.case + about 650 documents in quick, 15 000 in thorough): complete one-page documents "
+            "of three layouts - classic table; cross-reference stream + object stream holding catalog, page tree, font, descriptor and an unused last "
+            "member; hybrid (classic table in four subsections + /XRefStm, compressed objects named only by the stream) - each also with an incremental "
+            "update in the same style (/Prev), the stream layouts also with /W [1 4 4], an explicit /Index, and FlateDecode on both streams; in each "
+            "document ONE number that describes the file's own structure lies, taking in turn {0, 1, exact-1, exact+1, exact+2, 2*exact, 2^31, 2^32+1, "
+            "2^62, i64::MAX, -1, extent-1, extent, extent+1} (thorough adds exact+2^32, exact+2^64, -exact, 2^31-1, 2^32-1, 2^32, 2^63, 2^64-1, i64::MIN, "
+            "2*extent ...; extent = file length for file offsets, length of the member data for object-stream offsets, /Size for object numbers, member "
+            "count for indices, 4 for /W; binary row fields are truncated to their width) while every other number is exact for the bytes as written: "
+            "object-stream header offsets and member numbers, /First, /N, the streams' /Length; cross-reference stream /Size, /W entries, /Index "
+            "numbers, row type / field 2 / field 3 (offset and generation of a type-1 entry, object-stream number and index of a type-2 entry - one row "
+            "and all rows together -, next-free of a type-0 entry); classic entry offsets, next-free, subsection start and count, trailer /Size; "
+            "/XRefStm; startxref (of the last and of the superseded section); /Prev; stream /Length direct and through a reference defined after its "
+            "stream; /Count and the object named by /Kids; plus TRUNCATIONS with everything else consistent: object-stream data cut at {0, 1, First-1, "
+            "First, First+1, last offset-1, last offset, last offset+1, end-1}, cross-reference rows cut inside and after the first row. The builder "
+            "records every field it consults, so thorough sweeps all of them in all 14 configurations; quick sweeps about 60 field instances; "
             "Flate, ASCIIHex, ASCII85 and chained filters; 15 extreme numbers substituted into "
             "/Length, /N, /First, /W, /Index, /Prev, startxref; classic-table, xref-stream (+Flate), object-stream, incrementally-updated and encrypted "
             "layouts (corpus/C01/encrypted_hybrid.case: the complete one-page document as a hybrid file whose trailer declares /Encrypt - the code refuses the /XRefStm stream and exits (the oracle accepts completed or rejected; the model correspondence pins which), "
